@@ -55,7 +55,13 @@ def anchored_loops(g):
 
 def gen_doc(rng, entry, tier):
     cap = rng.choice([30, 80, 160]) if tier == 'quick' else rng.choice([50, 200, 800])
-    g = docsim.draw_doc(rng, entry, size_cap=cap, structural=True, alphabet=V.PLAIN, charset='E')
+    if rng.random() < 0.15:
+        # groups of different maps in one interchange: the reader switches maps at GS, loop ids of one map may be
+        # prefixes of loop ids of another
+        g = docsim.draw_multimap(rng, entry['icvn'], size_cap=cap, structural=True, alphabet=V.PLAIN, charset='E')
+        entry = dict(entry, file='+'.join(g.files))
+    else:
+        g = docsim.draw_doc(rng, entry, size_cap=cap, structural=True, alphabet=V.PLAIN, charset='E')
     d = ['~', '*', ':', '^']
     text = docsim.encode(rng, g.segs, d, rng.choice(['none', 'lf', 'crlf']))
     loops = anchored_loops(g)
@@ -65,7 +71,7 @@ def gen_doc(rng, entry, tier):
     elif r < 0.8 and loops:
         loop_id = rng.choice(loops)
     elif r < 0.9:
-        m = mapspec.load_map(entry['file'])
+        m = mapspec.load_map(entry['file'].split('+')[0])
         absent = [n.id for n in mapspec.walk(m) if n.kind == 'loop' and n.children and n.children[0].kind == 'segment' and n.id not in loops]
         loop_id = rng.choice(absent) if absent else None
     else:
@@ -270,7 +276,9 @@ def execute(case):
         n0 = len(out.violations)
         check_doc(d, s['yielded'], True, out, tag)
         trees = [y for y in s['yielded'] if y[0] == 'loop']
-        out.cover.add('%s|%s|trees=%d' % (d['map'], d['loop_id'], min(len(trees), 3)))
+        out.cover.add('%s|%s|trees=%d' % ('multimap' if '+' in d['map'] else d['map'], d['loop_id'], min(len(trees), 3)))
+        if '+' in d['map']:
+            out.fault('multimap-document')
     out.info['evals'] = len(docs)
     out.steps = log.seq
     out.digest = log.digest()
